@@ -44,6 +44,21 @@ PLAN = {
     "C04": dict(suites=["C04"], mc=["MCQuire"], gen=["GenQuire"],
         rule="driver: quire histories of length 1..64 (products and single posits, all spellings, NaR at random positions, "
              "limb-straddling / tiny / huge / cancelling terms), each observed after every step; shuffled replays of the same bag"),
+    "C11": dict(suites=["C11"], mc=["MCElem"],
+        rule="driver: P8E0 exp/ln on all 256 patterns; P16E1 ten functions on a seeded coset of the 65536 patterns (quick: every 8th + "
+             "specials, regime boundaries, kernel thresholds +-3, random; thorough: every pattern); each result judged by TLC against "
+             "a rigorous enclosure (ball arithmetic, 64 then 200 bits); distinct = distinct (type, function, input)"),
+    "C15": dict(suites=["C15"], mc=["MCElem"], filter=lambda v: "out-of-domain" not in v.get("diag", ""),
+        rule="driver: per function lattice, random patterns, in-domain magnitudes with random fractions, neighbourhoods of 1 and of "
+             "multiples of pi/2, tiny arguments, domain edges +-3 ulp; pairs for hypot/powf; verdict = enclosure within the stated "
+             "ULP bound of the result's rounding cell (sound: closed intervals), outside the documented domain nothing is demanded",
+        assumptions=["powf is judged for x > 0 only; atan2 is not judged (quadrant conventions unspecified): totality only, via C16",
+                     "documented domains taken from the crate's own tests: trig |x| < 393216, exp |x| <= 104, exp2 in [-150, 128), sinh/cosh |x| <= 88"]),
+    "C19": dict(suites=["C19"],
+        rule="driver: scripted RNG word streams enumerating the samplers' pre-image (all 64 P8 outcomes, all 2^18 P16 range values, "
+             "P32 boundary words and a stride sweep of the 2^27 x 4 space) + StdRng streams over many seeds, through Distribution::sample "
+             "and Rng::gen; every sample checked against the contract of the Sample action: real and 0 <= p < 1; "
+             "distinct = distinct sample values per type, non-trivial = non-zero"),
     "C18": dict(suites=["C18"], mc=["MCQuire"],
         rule="driver: x.polyN(&c) for N = 1..18, 3a, 4a, coefficient forms Self and [Self; 1..4], x from {minpos, maxpos, lattice, "
              "random, near 1}, coefficients from lattice/random/zero/NaR, plus well-conditioned cases (x = 2, 1/2, -2, 1.5 with distinct "
